@@ -12184,6 +12184,12 @@ CK_RV SoftHSM::getRSAPrivateKey(RSAPrivateKey* privateKey, Token* token, OSObjec
 		coefficient = key->getByteStringValue(CKA_COEFFICIENT);
 	}
 
+	// A private key without modulus or private exponent (e.g. a damaged object
+	// file) cannot be used; refuse it here instead of handing an incomplete key
+	// to the crypto library
+	if (modulus.size() == 0 || privateExponent.size() == 0)
+		return CKR_GENERAL_ERROR;
+
 	privateKey->setN(modulus);
 	privateKey->setE(publicExponent);
 	privateKey->setD(privateExponent);
